@@ -133,6 +133,11 @@ where
                 .context("Failed to write to temp file")?;
         }
     }
+    // The temp file is re-opened by the caller, make sure all of it has been written.
+    temp_file
+        .flush()
+        .await
+        .context("Failed to write to temp file")?;
     Ok((
         source_hasher.finalize().to_vec(),
         archive_chunks,
